@@ -31,6 +31,7 @@ import (
 	"testing"
 	"time"
 
+	"github.com/hashicorp/consul/agent/configentry"
 	"github.com/hashicorp/consul/agent/structs"
 	"github.com/hashicorp/consul/internal/verifc15"
 	"github.com/hashicorp/consul/internal/verifkit"
@@ -70,7 +71,8 @@ func verifC15Request(r verifC15Req) CompileRequest {
 // verifC15RunDirect executes one direct-mode case through the oracle. Used by the rapid property, the
 // exhaustive block and the replay test alike.
 func verifC15RunDirect(f verifkit.F, c *verifkit.Case, op verifC15DirectOp) {
-	model := verifc15.NewModel(op.Entries)
+	validity := verifc15.Valid(op.Entries)
+	model := verifc15.NewModelValid(op.Entries, validity)
 	chain2, cyc, hard := model.Shape()
 	if chain2 || cyc {
 		c.NonTrivial()
@@ -85,8 +87,8 @@ func verifC15RunDirect(f verifkit.F, c *verifkit.Case, op verifC15DirectOp) {
 		c.Label("has-cycle:router/splitter/redirect")
 	}
 	valid := 0
-	for _, e := range op.Entries {
-		if _, err := verifc15.Build(e); err != nil {
+	for i, e := range op.Entries {
+		if !validity[i] {
 			c.Label("entry-refused-by-validate(dropped)")
 		} else {
 			valid++
@@ -95,12 +97,15 @@ func verifC15RunDirect(f verifkit.F, c *verifkit.Case, op verifC15DirectOp) {
 	}
 	c.Labelf("valid-entries=%s", verifC15Bucket(valid))
 
+	// One set in natural order plus one per drawn insertion order, each made of freshly built entries. The sets
+	// are shared by the requests of the case, as the entries of a real server are shared by all compilations
+	// (memdb hands out the same objects), so a compilation that damages its input shows up as well.
 	base := verifc15.BuildSet(op.Entries, nil, op.Peers)
-	compile := func(r verifC15Req, fresh []int, useBase bool) verifc15.Outcome {
-		set := base
-		if !useBase {
-			set = verifc15.BuildSet(op.Entries, fresh, op.Peers)
-		}
+	reinserted := make([]*configentry.DiscoveryChainSet, len(op.Orders))
+	for i, ord := range op.Orders {
+		reinserted[i] = verifc15.BuildSet(op.Entries, ord, op.Peers)
+	}
+	compile := func(r verifC15Req, set *configentry.DiscoveryChainSet) verifc15.Outcome {
 		req := verifC15Request(r)
 		req.Entries = set
 		o := verifc15.Run(f, c, func() string { return fmt.Sprintf("Compile(%+v)", r) },
@@ -114,7 +119,7 @@ func verifC15RunDirect(f verifkit.F, c *verifkit.Case, op verifC15DirectOp) {
 
 	for _, r := range op.Reqs {
 		advanced := r.OProto == "" || structs.IsProtocolHTTPLike(r.OProto)
-		o1 := compile(r, nil, true)
+		o1 := compile(r, base)
 		c.Label("compile=" + verifc15.ErrKind(o1.Err))
 		if r.OProto != "" || r.OMgw != "" || r.OTimeoutMs != 0 {
 			c.Label("ctx:overrides")
@@ -167,9 +172,9 @@ func verifC15RunDirect(f verifkit.F, c *verifkit.Case, op verifC15DirectOp) {
 			}
 			c.Violation(f, "C15/nondeterministic/"+verifc15.DiffPath(c1, cn), "Compile(%+v) %s gave a different result; %s", r, how, verifc15.FirstDiff(c1, cn))
 		}
-		same(compile(r, nil, true), "on the same set a second time")
-		for _, ord := range op.Orders {
-			same(compile(r, ord, false), fmt.Sprintf("after re-inserting the entries in order %v into a fresh set", ord))
+		same(compile(r, base), "on the same set a second time")
+		for i, ord := range op.Orders {
+			same(compile(r, reinserted[i]), fmt.Sprintf("after re-inserting the entries in order %v into a fresh set", ord))
 		}
 	}
 }
@@ -201,6 +206,7 @@ func verifC15GenReq(t *rapid.T, svc string) verifC15Req {
 func TestVerifC15Direct(t *testing.T) {
 	rec := verifkit.For("C15")
 	defer rec.Flush()
+	verifc15.TuneGC()
 	extraOrders := 1
 	if verifkit.Thorough() {
 		extraOrders = 3
@@ -243,14 +249,15 @@ func verifC15Iota(n int) []int {
 	return out
 }
 
-// TestVerifC15DirectExhaustive compiles EVERY set of <= 3 (thorough: <= 4) entries of the reduced grammar over
+// TestVerifC15DirectExhaustive compiles EVERY set of <= 3 (thorough: <= 5) entries of the reduced grammar over
 // two services, for both services, without and with a tcp protocol override, through the same oracle.
 func TestVerifC15DirectExhaustive(t *testing.T) {
 	rec := verifkit.For("C15")
 	defer rec.Flush()
+	verifc15.TuneGC()
 	max := verifkit.EnvInt("VERIF_C15_EXH_MAX", 3)
 	if verifkit.Thorough() {
-		max = verifkit.EnvInt("VERIF_C15_EXH_MAX", 4)
+		max = verifkit.EnvInt("VERIF_C15_EXH_MAX", 5)
 	}
 	shard, nshards := verifc15.ShardOf()
 	slots := verifc15.SmallSlots("web", "api")
@@ -286,6 +293,7 @@ func TestVerifC15DirectExhaustive(t *testing.T) {
 func TestVerifC15Replay(t *testing.T) {
 	rec := verifkit.For("C15")
 	defer rec.Flush()
+	verifc15.TuneGC()
 	for _, path := range verifkit.ReplayFiles("C15") {
 		rp, err := verifkit.LoadReplay(path)
 		if err != nil {
